@@ -496,19 +496,49 @@ func main() {
 		// every history starts with the directed combinations (objects and params of one realm in one
 		// message: ++ new key, grow, ++ longer, +- shorter, -+ longer, -- shorter, +0 same length, + delete,
 		// grow, - delete, two realms in one message; a price change in between, a two-realm growth at the end)
-		prologue := []int{100, 10, 100, 105, 111, 88, 115, 109, 118, 10, 120, 122, 124, 55}
+		// 130-132: a two-realm growth measured with the default limit, the same growth with an explicit
+		// max-deposit that covers EACH realm's requirement but not their sum (must fail: the limit is per
+		// message and shrinks), and the control with a max-deposit that covers the sum (must pass)
+		var bothArgs []string
+		var bothA, bothB int64
+		prologue := []int{130, 131, 132, 100, 10, 100, 105, 111, 88, 115, 109, 118, 10, 120, 122, 124, 55}
 		for t := 0; t < ntx; t++ {
 			var m msgSpec
 			m.kind, m.caller = "call", []string{"u", "u", "v", "poor"}[rng.Intn(4)]
 			n, size := 1+rng.Intn(4), 8+rng.Intn(200)
 			ab := []string{"a", "b"}[rng.Intn(2)]
 			key := keys[rng.Intn(3)]
-			k := rng.Intn(125)
+			k := rng.Intn(128)
 			if t < len(prologue) {
 				k = prologue[t]
 				m.caller = "u"
 			}
+			if k >= 125 && t >= len(prologue) { // random part: the limit triple again, step by step
+				k = 130 + (t % 3)
+				if bothArgs == nil {
+					k = 130
+				}
+				m.caller = "u"
+			}
+			forcedLimit := int64(0)
 			switch {
+			case k == 130:
+				bothArgs = []string{itoa(1 + rng.Intn(2)), itoa(60 + rng.Intn(140)), itoa(1 + rng.Intn(2)), itoa(60 + rng.Intn(140))}
+				m.realm, m.fn, m.args = "a", "GrowBoth", bothArgs
+			case k == 131 || k == 132:
+				m.realm, m.fn, m.args = "a", "GrowBoth", bothArgs
+				lo, hi := bothA, bothB
+				if lo > hi {
+					lo, hi = hi, lo
+				}
+				if k == 131 {
+					forcedLimit = cur.Price * (hi + lo/2) // each realm fits, the sum does not
+				} else {
+					forcedLimit = cur.Price * (hi + lo + 400) // the sum fits
+				}
+				if lo <= 0 {
+					forcedLimit = 0
+				}
 			// ---- one realm changes its objects AND its own chain/params entry in one message
 			case k >= 100 && k < 105: // + objects, new key or longer value
 				mode := 1
@@ -558,9 +588,15 @@ func main() {
 				m.realm, m.fn, m.args = []string{"a", "b"}[rng.Intn(2)], "DelParam", []string{keys[rng.Intn(3)]}
 			case k < 92:
 				m.price = int64(1 + rng.Intn(5))
+				if m.price == cur.Price {
+					m.price = cur.Price%5 + 1 // a real change
+				}
 				m.realm, m.fn, m.args, m.caller = "p", "SetPrice", []string{fmt.Sprintf("%dugnot", m.price)}, "u"
 			case k < 95:
 				m.price = int64(1 + rng.Intn(5))
+				if m.price == cur.Price {
+					m.price = cur.Price%5 + 1 // a real change
+				}
 				m.realm, m.fn, m.args, m.caller = "p", "SetPriceAndGrow", []string{fmt.Sprintf("%dugnot", m.price), itoa(n), itoa(size)}, "u"
 			case k < 96:
 				m.realm, m.fn, m.args, m.caller = "p", "Shrink", []string{itoa(n)}, "u"
@@ -581,6 +617,9 @@ func main() {
 			if rng.Intn(4) == 0 && m.caller != "poor" && t >= len(prologue) {
 				m.limit = []int64{1, 40, 300, 2000, 20000}[rng.Intn(5)]
 			}
+			if forcedLimit > 0 {
+				m.limit = forcedLimit
+			}
 			if m.caller == "poor" && cur.Bal["poor"] < fee {
 				m.caller = "u"
 			}
@@ -590,7 +629,10 @@ func main() {
 			line := map[string]any{"act": "Msg", "caller": m.caller, "limit": m.limit, "fee": fee, "ok": ok,
 				"setprice": m.price, "setrestr": m.restr, "what": m.kind + ":" + m.realm + "." + m.fn, "st": after}
 			if ok {
-				setDiffs(line, before, after)
+				d := setDiffs(line, before, after)
+				if m.fn == "GrowBoth" && m.limit == 0 {
+					bothA, bothB = d["a"], d["b"]
+				}
 				sum["ok"]++
 				if m.kind == "deploy" {
 					deployed = true
